@@ -15,13 +15,14 @@ import (
 // errors surface.
 
 type c13Case struct {
-	Stmt   *lib.Stmt  `json:"stmt"`
-	Pairs  []lib.Pair `json:"pairs"`
-	Batch  int        `json:"batch"`
-	Mode   string     `json:"mode"`
-	FailAt int        `json:"failat"` // -1: fault-free run (read-only / rejected legs)
-	Reject bool       `json:"reject"` // the statement must be rejected (C14 mutant)
-	Query  string     `json:"query"`
+	Stmt    *lib.Stmt  `json:"stmt"`
+	Pairs   []lib.Pair `json:"pairs"`
+	Batch   int        `json:"batch"`
+	Mode    string     `json:"mode"`
+	FailAt  int        `json:"failat"`            // -1: fault-free run (read-only / rejected legs)
+	Reject  bool       `json:"reject"`            // the statement must be rejected (C14 mutant)
+	ErrKind int        `json:"errkind,omitempty"` // guise of the injected fault (lib.Instr.ErrKind)
+	Query   string     `json:"query"`
 }
 
 func init() { registerReplay("c13", func(c *c13Case) string { m, _, _, _ := checkC13(c); return m }) }
@@ -57,6 +58,7 @@ func checkC13(c *c13Case) (msg string, nontrivial bool, labels []string, ncalls 
 	base.Shared = true // the slices it hands out stay its own: reading must not write into them
 	in := lib.NewInstr(base)
 	in.FailAt = c.FailAt
+	in.ErrKind = c.ErrKind
 	cfg := lib.Cfg{Mode: c.Mode, Batch: c.Batch, Cache: true}
 	res := lib.Run(q, in, len(c.Pairs), cfg)
 	calls := in.Calls()
@@ -204,6 +206,8 @@ func TestC13Faults(t *testing.T) {
 	rapid.Check(t, func(rt *rapid.T) {
 		st, pairs := genC13Stmt(rt)
 		bs := rapid.SampledFrom([]int{1, 2, 3, 32}).Draw(rt, "batch")
+		// round 11: the fault may look like the end of a stream (it wraps io.EOF)
+		ek := rapid.SampledFrom([]int{0, 0, 1, 2}).Draw(rt, "errKind")
 		for _, mode := range []string{"row", "batch"} {
 			base := &c13Case{Stmt: st, Pairs: pairs, Batch: bs, Mode: mode, FailAt: -1}
 			lib.Journal("C13", "c13", base)
@@ -216,11 +220,11 @@ func TestC13Faults(t *testing.T) {
 				fail(rt, "C13", "c13", msg, base)
 			}
 			for i := 0; i < n; i++ {
-				c := &c13Case{Stmt: st, Pairs: pairs, Batch: bs, Mode: mode, FailAt: i}
+				c := &c13Case{Stmt: st, Pairs: pairs, Batch: bs, Mode: mode, FailAt: i, ErrKind: ek}
 				lib.Journal("C13", "c13", c)
 				msg, _, labels, _ := checkC13(c)
-				labels = append(labels, "stmt="+st.Kind, "mode="+mode)
-				lib.Stats.Case(n >= 3 && i < n-1, fmt.Sprint(c.Query, pairs, bs, mode, i), labels, func() any {
+				labels = append(labels, "stmt="+st.Kind, "mode="+mode, fmt.Sprintf("errkind=%d", ek))
+				lib.Stats.Case(n >= 3 && i < n-1, fmt.Sprint(c.Query, pairs, bs, mode, i, ek), labels, func() any {
 					return map[string]any{"query": c.Query, "pairs": len(pairs), "mode": mode, "batch": bs, "fault_at_call": i, "of": n}
 				})
 				if msg != "" {
